@@ -455,6 +455,14 @@ mod bbs_plus_impl {
 
       // Obtain the corresponding private key.
       let jwk = jwk_store.get(key_id).ok_or(KeyStorageErrorKind::KeyNotFound)?;
+      // As in `sign_bbs`: an update computed with the other ciphersuite (named by the caller's JWK) would not verify
+      // under the key's own public JWK.
+      if jwk.alg().is_some() && jwk.alg() != public_key.alg() {
+        return Err(
+          KeyStorageError::new(KeyStorageErrorKind::KeyAlgorithmMismatch)
+            .with_custom_message("the `alg` of the given public key differs from the `alg` of the stored key"),
+        );
+      }
       let sk = expand_bls_jwk(jwk)?.0.expect("jwk is private");
 
       // Update the signature.
